@@ -1,0 +1,10 @@
+//go:build verif
+
+package server
+
+// Contracts checked by /verif/gocv (comment-only file; see /verif/DESIGN.md §3).
+
+//@ func parseRangeHeader
+//@ arith int
+//@ ensures[C05:parsed-shape] err == nil ==> forall k :: 0 <= k && k < len(result) ==> specParsedRangeOK(result[k])
+//@ loop y0 invariant forall k :: 0 <= k && k < len(ranges) ==> specParsedRangeOK(ranges[k])
